@@ -47,7 +47,7 @@ class C02(Prop):
     reach = ["suite_1301", "suite_1302", "suite_1303", "suite_1304", "negotiated_not_first_offered", "zero_len_cid_client",
              "zero_len_cid_server", "retry", "one_way_capture", "zero_rtt", "crypto_out_of_order", "crypto_multi_packet", "coalesced_3_types",
              "key_update", "key_updates_ge_2", "cid_switch", "pnlen_1", "pnlen_4", "pn_skip", "stream_no_length",
-             "multi_stream_frames", "net_dup", "net_loss", "net_reorder", "ipv6", "multi_conn"]
+             "multi_stream_frames", "net_dup", "net_loss", "net_reorder", "ipv6", "multi_conn", "retry_id_equals_first_protected_byte"]
 
     def plan(self, tier):
         p = super().plan(tier)
@@ -64,8 +64,30 @@ class C02(Prop):
             cfg["net"] = NET
         policy = R.choice(["concurrent", "staggered", "sequential"])
         cfg["policy"] = policy
+        if idx % 8 == 5:
+            cfg["retry_pct"] = 100
         conns = [quicpeer.gen_quic_conn(R.fork("conn", j), j, cfg, used) for j in range(n)]
+        if idx % 8 == 5:
+            self.aim_retry_id(conns[0])
         return {"prop": "C02", "conns": conns, "tap": gen.gen_tap(R.fork("tap")), "policy": policy}
+
+    def aim_retry_id(self, conn):
+        """The one byte id of the Retry equals the first protected byte of a later client 1-RTT packet (the server uses
+        zero-length ids, so that byte is not a connection id): handshake-only ids must not match short headers."""
+        q = conn["q"]
+        q["scid_s_len"] = 0
+        q["ncid"]["s"] = 0
+        q.pop("cid_switch", None)
+        try:
+            _, info = quicpeer.build_units(conn)
+        except Exception:
+            return
+        cands = [dg for dg, dm in zip(info["dgrams"], info["dmeta"]) if dm["d"] == "c" and dm["pk"] and
+                 dm["pk"][0]["kind"] == "1rtt" and len(dg) > 1]
+        if not cands:
+            return
+        q["retry_scid_hex"] = "%02x" % cands[len(cands) // 2][1]
+        conn["retry_id_aimed"] = True
 
     def neutralisers(self):
         def suite_first(spec):
@@ -171,6 +193,13 @@ class C02(Prop):
                 out.count("reach:zero_len_cid_server")
             if q["retry"]:
                 out.count("reach:retry")
+            if conn.get("retry_id_aimed"):
+                _, info = quicpeer.build_units(conn)
+                rid = bytes.fromhex(q["retry_scid_hex"])
+                kept = set(f["dg"] for f in t["frames"] if f["kept"])
+                if any(dm["d"] == "c" and dm["pk"][0]["kind"] == "1rtt" and dg[1:2] == rid and i in kept
+                       for i, (dg, dm) in enumerate(zip(info["dgrams"], info["dmeta"])) if dm["pk"]):
+                    out.count("reach:retry_id_equals_first_protected_byte")
             if q.get("one_way"):
                 out.count("reach:one_way_capture")
             if q["zero_rtt"]:
